@@ -76,28 +76,3 @@ func TestFinding_C02_RemovingALinkKeepsItsTarget(t *testing.T) {
 		t.Errorf("after a rebuild the target reads %q, %v", c, err)
 	}
 }
-
-// KNOWN (open) C07-rename-while-a-link-exists: documents the behaviour; passes while the defect is present and skips
-// when it is gone.
-func TestKnown_C07_RenameOfALinkThenReindex(t *testing.T) {
-	e := newFS(t, t.TempDir(), false, config.PipeConfig{})
-	e.init(t)
-	f := e.stfs
-	if err := f.SymlinkIfPossible("/b", "/a"); err != nil {
-		t.Fatal(err)
-	}
-	if err := f.Rename("/a", "/b"); err != nil {
-		t.Skipf("defect no longer present: renaming the link reports %v", err)
-	}
-	writeFile(t, f, "/b", "z")
-	if err := reindexNoWipe(t, e); err != nil {
-		t.Fatalf("reindex: %v", err)
-	}
-	fi, _, err := f.LstatIfPossible("/a")
-	e2 := rebuiltFS(t, e)
-	fi2, _, err2 := e2.stfs.LstatIfPossible("/a")
-	if (err == nil) == (err2 == nil) && (err != nil || fi.Mode().Type() == fi2.Mode().Type()) {
-		t.Skip("defect no longer present: the re-indexed and the rebuilt index agree on /a")
-	}
-	t.Logf("Lstat(/a) after re-index: %v, %v; after a rebuild from scratch: %v, %v", fi, err, fi2, err2)
-}
